@@ -193,8 +193,10 @@ class Ctx:
             res.extend(out[: len(lines) - i])
             if len(out) >= len(lines) - i:
                 break
-            # process died while handling line i+len(out)
-            res.append("err abort")
+            # process died while handling line i+len(out); exit status 3 = the watchdog already
+            # answered `err timeout` for the line that hung
+            if rc != 3:
+                res.append("err abort")
             i = len(res)
         return res
 
